@@ -975,7 +975,7 @@ def run(ctx):
                     m, res = env['m'], env['res']
                     hop = ('deepcopy' if name in ('copy()', 'copy.deepcopy') else 'fixvariablescopy' if name.startswith('fix_variables(') else 'inplacefalse')
                     lines.append('hcqm ' + hop); ctx.tick('heap model: cqm ' + hop)
-                    expect.append(f'ok variables={int(res.variables is m.variables)} clabels={int(res.constraint_labels is m.constraint_labels)} shared=0 receiver_unchanged=1')
+                    expect.append(f'ok variables={int(res.variables is m.variables)} clabels={int(res.constraint_labels is m.constraint_labels)} shared=0 receiver_unchanged={int(env["after"] == env["before"])}')
                     meta.append(site)
         for kind, gen in (('bqm', gen_bqm), ('qm', gen_qm), ('cqm', gen_cqm), ('cqm', gen_cqm)):
             rsrc, rvs, rvt = gen(r)
